@@ -28,6 +28,10 @@ namespace c15
         virtual bool set_size_cursor(unsigned len, unsigned cur) = 0; // igris::sline::set_size_and_cursor
         virtual int backspace(unsigned n) = 0;
         virtual int del(unsigned n) = 0;
+        // the count given as an `int` (round 3b): igris::sline::backspace(int) / del(int) take it as it is, the C
+        // family writes the conversion to the `unsigned int` parameter out
+        virtual int backspace_i(int n) = 0;
+        virtual int del_i(int n) = 0;
         virtual int left() = 0;
         virtual int right() = 0;
         virtual void reset() = 0;
@@ -51,6 +55,11 @@ namespace c15
         virtual int state() = 0;             // escape automaton state (READLINE_STATE_*)
     };
 
+    // canonical number of a readline escape state, through the READLINE_STATE_* names of the header (the numbers
+    // themselves are not fixed by the property); -100: the state field is not visible to the harness
+    #define C15_CANON_RSTATE(x) ((x) == READLINE_STATE_NORMAL ? 0 : (x) == READLINE_STATE_ESCSEQ ? 1 : (x) == READLINE_STATE_ESCSEQ_MOVE ? 2 : (x) == READLINE_STATE_ESCSEQ_MOVE_WAIT_7E ? 3 : 100 + (x))
+    enum { NOT_VISIBLE = -100 };
+
     struct ivterm
     {
         virtual ~ivterm() {}
@@ -61,11 +70,23 @@ namespace c15
         virtual void key16(int16_t c) = 0;   // the parameter exactly as given (a `char` argument is converted by the compiler)
         virtual void set_prompt(const std::string &p) = 0;
         virtual void set_echo(bool e) = 0;
-        virtual int state() = 0;             // terminal automaton state
-        virtual int rlstate() = 0;           // its readline's escape automaton state
-        virtual unsigned len() = 0;
-        virtual unsigned cursor() = 0;
-        virtual std::string text() = 0;
+        // Internal state (round 3b: OPTIONAL).  The terminal has no public accessor for its line: the harness reads
+        // the private / internal members when they can be named; when a member was renamed or removed
+        // (`line_visible()` false, `state()` = NOT_VISIBLE) the session falls back to the reference editor's values
+        // for the record (`shadow`), and the implementation is judged by what it does: callback events, written
+        // bytes, screen.
+        virtual bool line_visible() = 0;
+        virtual int state() = 0;             // terminal automaton state, or NOT_VISIBLE
+        virtual int rlstate() = 0;           // its readline's escape automaton state (canonical 0..3), or NOT_VISIBLE
+        virtual unsigned len_() = 0;
+        virtual unsigned cursor_() = 0;
+        virtual std::string text_() = 0;
+        unsigned sh_len = 0, sh_cur = 0;
+        std::string sh_text;
+        void shadow(unsigned l, unsigned c, const std::string &t) { sh_len = l; sh_cur = c; sh_text = t; }
+        unsigned len() { return line_visible() ? len_() : sh_len; }
+        unsigned cursor() { return line_visible() ? cursor_() : sh_cur; }
+        std::string text() { return line_visible() ? text_() : sh_text; }
     };
 
     isline *make_sline_c(unsigned cap);
@@ -77,6 +98,6 @@ namespace c15
 
     // constants of the compiled headers
     std::string consts_c();
-    std::string consts2_x();   // sizeof of igris::readline's ring indices
+    std::string consts2_x();   // sizeof of igris::readline's ring indices (0: not visible), as tags
 }
 #endif
